@@ -381,6 +381,15 @@ class Facts(object):
         for k, p in self.items:
             if k == text:
                 return p
+        # the query may be written in any equivalent form (`a <= 0`, `x is not None`, `not f`)
+        try:
+            from .guards import normalise_atom
+            k2, flip = normalise_atom(ast.parse(text, mode="eval").body)
+        except SyntaxError:
+            return None
+        for k, p in self.items:
+            if k == k2:
+                return p != flip
         return None
 
     def __repr__(self):
